@@ -44,9 +44,11 @@ func experiment(T, K int, bodyKind int, kinds [][]int, bodyVal int) {
 	entered := make(chan int, 8)    // one token per body entry
 	release := make(chan struct{})  // closed to let a held body finish
 	bodyCtxDone := make(chan bool, 1)
+	var bodyCtx context.Context // the context the body was given (written before the body signals its entry)
 	fn := MalFunc{
 		GenEnv: func(EnvType, MalType, MalType) (EnvType, error) { return nil, nil },
 		Eval: func(ctx context.Context, _ MalType, _ EnvType) (MalType, error) {
+			bodyCtx = ctx
 			entered <- 1
 			switch bodyKind {
 			case 0:
@@ -221,6 +223,11 @@ func experiment(T, K int, bodyKind int, kinds [][]int, bodyVal int) {
 				vrt.Assert(!derefBefore || cancelBefore, "future-cancel returned true on a future whose outcome had already been delivered to a deref")
 			}
 		}
+	}
+	if !anyCancelTrue && bodyKind != 2 && bodyCtx != nil {
+		// no future-cancel returned true: "returns false and changes nothing" includes the body's context,
+		// under which work started by the body may still be running
+		vrt.Assert(bodyCtx.Err() == nil, "the body's context is cancelled although no future-cancel returned true")
 	}
 	if held && anyCancelTrue {
 		vrt.Assert(<-bodyCtxDone, "future-cancel returned true but the body's context was not cancelled")
